@@ -1,6 +1,8 @@
 (* C13 — property theorems only (model: C13/Model.v, proofs: C13/Proofs.v) *)
 From Coq Require Import List String NArith ZArith Bool.
 From Verif Require Import Base.Util C13.Model C13.Proofs.
+(* the double-notification harness of this check (h_reader -mode c13d) evaluates its cases with the reader model and C01.Check *)
+From Verif Require Reader.Model C01.Check.
 Import ListNotations.
 Local Open Scope string_scope.
 
